@@ -334,10 +334,7 @@ func (fr *frame) evalBuiltin(st *State, call *ast.CallExpr, name string) []*Valu
 		v := fr.eval(st, call.Args[0])
 		t := fr.typeOf(call.Args[0])
 		if name == "cap" {
-			fr.fc.reg.assumptions["cap(s) modelled as an arbitrary value >= len(s)"] = true
-			c := mkVar(freshName("cap"), SInt)
-			st.assume(Ge(c, v.Len))
-			return []*Value{scalar(c, types.Typ[types.Int])}
+			return []*Value{scalar(v.capTerm(), types.Typ[types.Int])}
 		}
 		return []*Value{scalar(fr.lenOf(st, v, t), types.Typ[types.Int])}
 	case "panic":
@@ -359,7 +356,11 @@ func (fr *frame) evalBuiltin(st *State, call *ast.CallExpr, name string) []*Valu
 			return []*Value{scalar(st.newMap(u), t)}
 		case *types.Slice:
 			n := fr.eval(st, call.Args[1]).S
-			fr.fc.oblige(st, fr, "safe", fmt.Sprintf("safe.make#%d", fr.callOrd[call]), Ge(n, mkInt(0)))
+			capT := n
+			if len(call.Args) > 2 {
+				capT = fr.eval(st, call.Args[2]).S
+			}
+			fr.fc.oblige(st, fr, "safe", fmt.Sprintf("safe.make#%d", fr.callOrd[call]), And(Ge(n, mkInt(0)), Ge(capT, n)))
 			r := st.newRef("make")
 			// zeroed contents
 			for _, l := range leavesOf(u.Elem()) {
@@ -368,7 +369,7 @@ func (fr *frame) evalBuiltin(st *State, call *ast.CallExpr, name string) []*Valu
 				noteClass(cls, as, false)
 				st.heap[cls] = Store(st.heapArr(cls, as), r, ConstArray(as, zeroTerm(l.Sort)))
 			}
-			return []*Value{{K: VSlice, T: t, Arr: r, Len: n}}
+			return []*Value{{K: VSlice, T: t, Arr: r, Len: n, Cap: capT}}
 		case *types.Chan:
 			return []*Value{scalar(st.newRef("chan"), t)}
 		}
@@ -432,24 +433,34 @@ func (fr *frame) lenOf(st *State, v *Value, t types.Type) *Term {
 	panic(unsupported("len of " + typeName(t)))
 }
 
-// appendElems models append(base, elems...): the result is a fresh backing array holding base's
-// elements followed by elems. (Aliasing with base's spare capacity is not modelled.)
+// appendElems models append(base, elems...). With spare capacity (len+k <= cap) the elements are
+// written into base's backing array (aliasing!); otherwise a fresh array holding a copy is
+// allocated. ASSUMPTION: a grown slice has no spare capacity (cap == new len); Go's real growth
+// policy may leave some, which only matters for later in-place appends through that slice.
 func (fr *frame) appendElems(st *State, sl *types.Slice, base *Value, elems []*Value, t types.Type) *Value {
-	fr.fc.reg.assumptions["append returns a fresh backing array (capacity aliasing not modelled)"] = true
+	fr.fc.reg.assumptions["append: in place when len+k <= cap, else a fresh array with cap == new len (no spare capacity after growth)"] = true
+	k := mkInt(int64(len(elems)))
+	newLen := Add(base.Len, k)
+	inPlace := And(Neq(base.Arr, mkInt(0)), Le(newLen, base.capTerm()))
+	if len(elems) == 0 {
+		return base
+	}
 	r := st.newRef("append")
+	arr := Ite(inPlace, base.Arr, r)
 	for _, l := range leavesOf(sl.Elem()) {
 		cls := elemClass(sl.Elem()) + l.Path
 		as := SArray(SInt, l.Sort)
 		noteClass(cls, as, false)
 		h := st.heapArr(cls, as)
+		// the fresh array starts as a copy of base's contents
 		st.heap[cls] = Store(h, r, Select(h, base.Arr))
 	}
 	n := base.Len
 	for _, e := range elems {
-		st.store(&lvalue{kind: lvElem, T: sl.Elem(), ref: r, idx: n, prefix: elemClass(sl.Elem())}, e)
+		st.store(&lvalue{kind: lvElem, T: sl.Elem(), ref: arr, idx: n, prefix: elemClass(sl.Elem())}, e)
 		n = Add(n, mkInt(1))
 	}
-	return &Value{K: VSlice, T: t, Arr: r, Len: n}
+	return &Value{K: VSlice, T: t, Arr: arr, Len: newLen, Cap: Ite(inPlace, base.capTerm(), newLen)}
 }
 
 func (fr *frame) appendSlice(st *State, sl *types.Slice, base, other *Value) *Value {
@@ -467,7 +478,7 @@ func (fr *frame) appendSlice(st *State, sl *types.Slice, base, other *Value) *Va
 			Implies(And(Le(base.Len, k), Lt(k, Add(base.Len, other.Len))), Eq(Select(fresh, k), Select(Select(h, other.Arr), Sub(k, base.Len)))))))
 		st.heap[cls] = Store(h, r, fresh)
 	}
-	return &Value{K: VSlice, T: base.T, Arr: r, Len: Add(base.Len, other.Len)}
+	return &Value{K: VSlice, T: base.T, Arr: r, Len: Add(base.Len, other.Len), Cap: Add(base.Len, other.Len)}
 }
 
 // ---- syntactic models: locks, atomics ----
